@@ -156,6 +156,36 @@ theorem testDeliver_spec {P : Prog} {n k : Nat} {c0 : Cfg} {f : Cfg → Cfg → 
     · cases h
   · cases h
 
+def headIsPushModal : List Instr → Bool
+  | .pushModal .. :: _ => true
+  | _ => false
+
+theorem headIsPushModal_spec {l : List Instr} (h : headIsPushModal l = true) :
+    ∃ scr args K, l = .pushModal scr args :: K := by
+  cases l with
+  | nil => cases h
+  | cons a l => cases a <;> first | (cases h; done) | exact ⟨_, _, _, rfl⟩
+
+/-- boolean test on a `push_screen_modal` call (steps `n`, `n + 1`) and a later transition -/
+def testModal (P : Prog) (n k : Nat) (c0 : Cfg) (f : Cfg → Cfg → Cfg → Cfg → Bool) : Bool :=
+  match runOk P n c0, runOk P (n + 1) c0, runOk P (n + 1 + 1) c0, runOk P (n + 1 + 1 + k) c0,
+      runOk P (n + 1 + 1 + k + 1) c0 with
+  | some c, some _, some c1, some c2, some c3 => headIsPushModal c.code && f c c1 c2 c3
+  | _, _, _, _, _ => false
+
+theorem testModal_spec {P : Prog} {n k : Nat} {c0 : Cfg} {f : Cfg → Cfg → Cfg → Cfg → Bool}
+    (h : testModal P n k c0 f = true) :
+    ∃ c c' c1 c2 c3 scr args K, Reach P c0 c ∧ c.code = .pushModal scr args :: K ∧ step P c = .ok c' ∧
+      step P c' = .ok c1 ∧ Reach P c1 c2 ∧ Trans P c2 c3 ∧ f c c1 c2 c3 = true := by
+  unfold testModal at h
+  split at h
+  · rename_i c c' c1 c2 c3 hc hc' hc1 hc2 hc3
+    rw [Bool.and_eq_true] at h
+    obtain ⟨scr, args, K, hK⟩ := headIsPushModal_spec h.1
+    exact ⟨c, c', c1, c2, c3, scr, args, K, reach_runOk hc, hK, step_runOk hc hc', step_runOk hc' hc1,
+      reach_runOk_from k hc1 hc2, trans_runOk hc2 hc3, h.2⟩
+  · cases h
+
 end Shape
 
 end Simpleline
